@@ -107,12 +107,14 @@ ALLCAPS = '0,1,2,3,4,5,8,16,32,40,70'
 
 def _c01(tier):
     a = '--fam track,copy,raw,zst,nodrop' + (' --caps ' + ALLCAPS if tier == 'thorough' else '')
-    return hist_jobs('C01', tier, a, a, engines=('map',), std=True)
+    m = '--fam track,raw --caps 0,1,2,3,4 --max-steps 48'
+    return hist_jobs('C01', tier, a, a, engines=('map',), std=True, miri=(16, 150, 1500, {'map': m}))
 
 
 def _c07(tier):
     a = '--fam track,copy,raw,zst,nodrop' + (' --caps ' + ALLCAPS if tier == 'thorough' else '')
-    return hist_jobs('C07', tier, a, a, engines=('set',), std=True)
+    m = '--fam track,raw --caps 0,1,2,3,4 --max-steps 48'
+    return hist_jobs('C07', tier, a, a, engines=('set',), std=True, miri=(16, 150, 1500, {'set': m}))
 
 
 def _mem_hist(prop, tier, fam='track,copy', miri_steps=(260, 2500), vg=True, asan=True, mirirel=False, engines=('map', 'set')):
@@ -186,7 +188,7 @@ plan('C02', jobs=_c02, rule=HIST_RULE + ' Consuming iterators and drains are aba
      level_note='Trusted: ledger + instrumented elements; Miri/ASan/valgrind as detectors on executed paths. Miri depth is thousands of steps, native depth millions.',
      design_ref='DESIGN.md section 3, C02')
 
-plan('C05', jobs=lambda t: _simple_hist('C05', t, fam='track,copy,zst'), rule=HIST_RULE + ' The well-formedness oracle uses no model: it only observes len/is_empty/capacity/iter/get.',
+plan('C05', jobs=lambda t: _simple_hist('C05', t, fam='track,copy,zst', miri=(150, 1500, True)), rule=HIST_RULE + ' The well-formedness oracle uses no model: it only observes len/is_empty/capacity/iter/get.',
      required=rows('C05'),
      title='well-formedness after every step',
      technique='runtime monitoring: model-free invariant monitor (keys pairwise unequal, len == iteration count, is_empty, len <= capacity, every yielded key looks up its own value) evaluated at every quiescent point, including after container-raised panics',
@@ -194,7 +196,7 @@ plan('C05', jobs=lambda t: _simple_hist('C05', t, fam='track,copy,zst'), rule=HI
      level_note='Uniqueness is judged with the lawful == of the instrumented keys. Finite sample of histories.',
      design_ref='DESIGN.md section 3, C05')
 
-plan('C09', jobs=lambda t: _simple_hist('C09', t, fam='track,copy,zst', miri=(150, 1500, False)), rule=HIST_RULE + ' An iterator probe walks one borrowing iterator kind completely, checking len/size_hint/count before every step, a clone at a random step, fusedness, a second traversal and write visibility.',
+plan('C09', jobs=lambda t: _simple_hist('C09', t, fam='track,copy,zst', miri=(150, 1500, True)), rule=HIST_RULE + ' An iterator probe walks one borrowing iterator kind completely, checking len/size_hint/count before every step, a clone at a random step, fusedness, a second traversal and write visibility.',
      required=rows('C09'),
      title='borrowing iterators',
      technique='runtime monitoring: per-step exactness monitor on iter/iter_mut/keys/values/values_mut/Set::iter over states reached by random histories (identity-level comparison through ledger ids)',
@@ -210,7 +212,7 @@ plan('C10', jobs=lambda t: _mem_hist('C10', t, fam='track,copy,zst', miri_steps=
      level_note='For a forgotten drain only safety and well-formedness are demanded (the property promises nothing more).',
      design_ref='DESIGN.md section 3, C10')
 
-plan('C12', jobs=lambda t: _simple_hist('C12', t, fam='track,large,nodrop'), rule=HIST_RULE + ' Keys of one class carry distinct tags, so the stored key object is identifiable; half of the inserting operations reuse a present class with a fresh tag.',
+plan('C12', jobs=lambda t: _simple_hist('C12', t, fam='track,large,nodrop', miri=(150, 1500, True)), rule=HIST_RULE + ' Keys of one class carry distinct tags, so the stored key object is identifiable; half of the inserting operations reuse a present class with a fresh tag.',
      required=rows('C12'),
      title='stored-key identity',
      technique='runtime monitoring: identity (tag + ledger id) sweep of the stored key object after every step, against a model that tracks which key object must be stored',
@@ -218,7 +220,7 @@ plan('C12', jobs=lambda t: _simple_hist('C12', t, fam='track,large,nodrop'), rul
      level_note='Finite sample of histories; identity observable only for the tracked families.',
      design_ref='DESIGN.md section 3, C12')
 
-plan('C15', jobs=lambda t: _simple_hist('C15', t, fam='track,large,nodrop,copy,zst', miri=(150, 1500, False)), rule=HIST_RULE + ' A fork step clones the container inside a ledger event window; both copies then continue with independent random suffixes and are swept after every step.',
+plan('C15', jobs=lambda t: _simple_hist('C15', t, fam='track,large,nodrop,copy,zst', miri=(150, 1500, True)), rule=HIST_RULE + ' A fork step clones the container inside a ledger event window; both copies then continue with independent random suffixes and are swept after every step.',
      required=rows('C15'),
      title='clone',
      technique='runtime monitoring: ledger event window around clone() (exactly one Clone event per stored key and value, nothing else), then twin histories with cross-talk sweeps of both copies after every step',
@@ -290,10 +292,10 @@ def _c08(tier):
         J('C08', 'dbg/u4', 'dbg', 'eng_algebra', '--universe 4 --random %d' % q(tier, 3000, 60000), 8, 1, exh=True),
         J('C08', 'rel/u4', 'rel', 'eng_algebra', '--universe 4 --random %d' % q(tier, 9000, 300000), 8, 1, exh=True),
     ]
+    jobs.append(J('C08', 'miri/u3', 'miri', 'eng_algebra', '--tiny', 16, 1, light=True, timeout=q(tier, 1500, 7200)))
     if tier == 'thorough':
         jobs += [
             J('C08', 'rel/u5', 'rel', 'eng_algebra', '--universe 5', 16, 1, exh=True, timeout=3600),
-            J('C08', 'miri/u3', 'miri', 'eng_algebra', '--tiny', 16, 1, light=True, timeout=7200),
         ]
     return jobs
 
@@ -370,8 +372,7 @@ def _c14(tier):
         J('C14', 'dbg/u4', 'dbg', 'eng_eq', '--random %d' % q(tier, 4000, 400000), 8, 1, exh=True),
         J('C14', 'rel/u4', 'rel', 'eng_eq', '--random %d' % q(tier, 20000, 2000000), 8, 1, exh=True),
     ]
-    if tier == 'thorough':
-        jobs.append(J('C14', 'miri/u3', 'miri', 'eng_eq', '--tiny', 8, 1, light=True, timeout=7200))
+    jobs.append(J('C14', 'miri/u3', 'miri', 'eng_eq', '--tiny', 8, 1, light=True, timeout=q(tier, 1500, 7200)))
     return jobs
 
 
@@ -392,8 +393,7 @@ def _c16(tier):
         J('C16', 'dbg/u4', 'dbg', 'eng_bulk', '--maxlen 6 --random %d' % q(tier, 3000, 300000), 8, 1, exh=True),
         J('C16', 'rel/u4', 'rel', 'eng_bulk', '--maxlen %d --random %d' % (q(tier, 6, 7), q(tier, 9000, 1500000)), 8, 1, exh=True),
     ]
-    if tier == 'thorough':
-        jobs.append(J('C16', 'miri/u3', 'miri', 'eng_bulk', '--tiny', 8, 1, light=True, timeout=7200))
+    jobs.append(J('C16', 'miri/u3', 'miri', 'eng_bulk', '--tiny', 8, 1, light=True, timeout=q(tier, 1500, 7200)))
     return jobs
 
 
@@ -503,8 +503,7 @@ def _c20(tier):
         J('C20', 'dbg/serde', 'dbg-serde', 'eng_serde', '', 8, q(tier, 40_000, 1_500_000)),
         J('C20', 'rel/serde', 'rel-serde', 'eng_serde', '', 8, q(tier, 120_000, 6_000_000)),
     ]
-    if tier == 'thorough':
-        jobs.append(J('C20', 'miri/serde', 'miri-serde', 'eng_serde', '', 8, 600, light=True, timeout=7200))
+    jobs.append(J('C20', 'miri/serde', 'miri-serde', 'eng_serde', '', 8, q(tier, 60, 600), light=True, timeout=q(tier, 1500, 7200)))
     return jobs
 
 
@@ -536,8 +535,7 @@ def _c06(tier):
           ['cargo', '+nightly', 'build', '--lib', '--offline', '-Zbuild-std=core', '--target', 'x86_64-unknown-none'],
           ['cargo', 'build', '--lib', '--offline'], 'nostd'),
     ]
-    if tier == 'thorough':
-        jobs.append(J('C06', 'miri/default', 'miri', 'eng_noheap', '--max-steps 24', 8, 1500, light=True, timeout=7200))
+    jobs.append(J('C06', 'miri/default', 'miri', 'eng_noheap', '--max-steps 24', 8, q(tier, 150, 1500), light=True, timeout=q(tier, 1500, 7200)))
     return jobs
 
 
